@@ -739,6 +739,31 @@ def d4c_fresh_report(chk: Check) -> None:
                  "of a report: SAME entries are part of it)")
 
 
+def d4d_search_results_fresh(chk: Check) -> None:
+    """The pairing routines look, per element, for a partner with a
+    find-first loop and remember its index.  "Not found" must be
+    re-established for every element: an index left over from the previous
+    element folds / removes an unrelated entry (an element is then reported
+    twice or not at all)."""
+    from sa.loopstate import stale_search_results
+    prog = chk.prog
+    chk.rule("C06-D4d", "every find-first search inside a pairing loop "
+             "re-initialises its result variable in the same block, before "
+             "the search", floor=5)
+    for fi in prog.funcs_in(DIFFER):
+        bad, n = stale_search_results(fi)
+        for loop, var in bad:
+            chk.fail("C06-D4d", fi, loop, "{}: `{}` found by for {} in {}"
+                     .format(fi.short, var, src(loop.target),
+                             src(loop.iter)[:30]),
+                     "`{}` is not reset before this search: when nothing is "
+                     "found it still holds the hit of an earlier element"
+                     .format(var))
+        for _ in range(n - len(bad)):
+            chk.ok("C06-D4d", fi, fi.node, fi.short, "reset before the "
+                   "search", False)
+
+
 # ---------------------------------------------------------------- D5 ------
 def d5_both_sides(chk: Check) -> None:
     prog = chk.prog
@@ -816,5 +841,6 @@ def run(chk: Check) -> None:
     d4_absent(chk)
     d4b_falsy(chk)
     d4c_fresh_report(chk)
+    d4d_search_results_fresh(chk)
     d5_both_sides(chk)
     d6_exit_and_ladders(chk)
